@@ -214,6 +214,7 @@ def run(tier):
             break
         run_schema(ck, m, ck.rng, n_docs, max_depth=ck.rng.choice([2, 3, 3, 4]),
                    p_bad=ck.rng.choice([0.0, 0.03, 0.05, 0.08]))
+    custom_scalar_arguments(ck, 150 if tier == "quick" else 2000)
     ck.rule = ("type-directed generation: per schema (objects, interfaces incl. interface hierarchies, unions, enums, "
                "list/non-null nesting up to 2 lists, input objects incl. OneOf and nested defaults, arguments with defaults) "
                "a batch of operations (object literals with variables inside, aliases that "
@@ -225,6 +226,66 @@ def run(tier):
                "and once more after all other requests of its schema, on the same schema and document objects. "
                "non-trivial = the document uses at least one of the listed features or the response has errors")
     return ck.finish()
+
+
+def custom_scalar_arguments(ck, n):
+    """Arguments of a custom scalar (outside the Coq fragment): the resolver must receive the literal with
+    every variable at every depth replaced by its coerced value (direct predicate on the implementation)."""
+    from graphql import build_schema, execute_sync, parse
+    rng = ck.rng
+    schema = build_schema("scalar Any  type Query { put(doc: Any, n: Int, f: Float, b: Boolean, s: String): String  echo(x: [Any!]): String }")
+    pool = {"n": 3, "s": "str", "b": True, "f": 1.5, "l": [1, "x"], "o": {"k": [None, 2]}, "u": None}
+    decl = {"n": "Int", "s": "String", "b": "Boolean", "f": "Float", "l": "Any", "o": "Any", "u": "Any"}
+
+    def gen(depth):
+        k = rng.randint(0, 6 if depth > 0 else 3)
+        if k == 0:
+            v = rng.choice(list(pool))
+            return "$" + v, pool[v], {v}
+        if k == 1:
+            x = rng.choice([0, -7, 2 ** 40])
+            return str(x), x, set()
+        if k == 2:
+            x = rng.choice(["a", "", "q\"uote"])
+            return json.dumps(x), x, set()
+        if k == 3:
+            return rng.choice([("true", True, set()), ("null", None, set()), ("ENUMV", "ENUMV", set()), ("1.25", 1.25, set())])
+        if k in (4, 5):
+            items = [gen(depth - 1) for _ in range(rng.randint(0, 3))]
+            return "[" + ", ".join(i[0] for i in items) + "]", [i[1] for i in items], set().union(*[i[2] for i in items])
+        keys = rng.sample(["a", "b", "c", "d"], rng.randint(0, 3))
+        items = [(k_, gen(depth - 1)) for k_ in keys]
+        return ("{" + ", ".join(f"{k_}: {i[0]}" for k_, i in items) + "}", {k_: i[1] for k_, i in items},
+                set().union(*[i[2] for k_, i in items]))
+
+    for _ in range(n):
+        text, want, used = gen(3)
+        field = rng.choice(["put", "echo"])
+        if field == "echo":
+            text, want = "[" + text + "]", [want]
+            if want[0] is None:
+                continue
+        vdefs = ", ".join(f"${v}: {decl[v]}" for v in sorted(used))
+        q = "query" + (f"({vdefs})" if vdefs else "") + " { " + (f"put(doc: {text})" if field == "put" else f"echo(x: {text})") + " }"
+        got = []
+
+        def resolver(_src, _info, **kw):
+            got.append(kw)
+            return "ok"
+        try:
+            res = execute_sync(schema, parse(q), variable_values={v: pool[v] for v in used}, field_resolver=resolver)
+        except Exception as e:  # noqa: BLE001
+            ck.violation(f"custom-scalar-arg:{q}", f"execute_sync raised {type(e).__name__} for {q}", {"relation": "execution never raises", "document": q})
+            continue
+        ck.note_case(("custom-scalar-arg", q), nontrivial=bool(used))
+        key = "doc" if field == "put" else "x"
+        if res.errors or not got or got[0].get(key) != want:
+            ck.violation(f"custom-scalar-arg:{q}",
+                         f"resolver of a custom-scalar argument received {got[0].get(key) if got else None!r}, coercion prescribes {want!r} for {q}",
+                         {"relation": "resolver arguments = coerced arguments (custom scalar literal with embedded variables)",
+                          "document": q, "variables": {v: pool[v] for v in used}, "impl": repr(got), "model": repr(want),
+                          "errors": [e.message for e in res.errors or []]})
+    ck.count("custom_scalar_argument_cases", n)
 
 
 def run_one(sdl, text, variables, data, operation_name=None):
